@@ -22,7 +22,7 @@ MANIFEST = {
             "them), node-list formatting of Builder/Compiler (format_node), format_feature/type_id/data. AArch64 operand and named-label "
             "parse-back are monitored on every run, not proved for all inputs. The encoder's bytes are inputs here (C01/C02).",
 }
-MODS = ["AsmjitVerif.Props.C20", "AsmjitVerif.Props.C20Names", "AsmjitVerif.Props.C20Mem"]
+MODS = ["AsmjitVerif.Props.C20", "AsmjitVerif.Props.C20Names", "AsmjitVerif.Props.C20Mem", "AsmjitVerif.Props.C20Read"]
 
 M64 = (1 << 64) - 1
 FF = {"mc": 0x1, "alias": 0x8, "explain": 0x10, "heximm": 0x20, "hexoff": 0x40, "casts": 0x100, "pos": 0x200, "regtype": 0x400}
@@ -755,6 +755,13 @@ def run(res):
     res.coverage["input_distribution"] = kinds
     res.coverage["monitored_answers"] = judged
     res.coverage["emit_accepted_by_assembler"] = accepted
+    res.coverage["machine_code_column_on_real_byte_stream"] = (
+        "theorems machine_code_column_exact/_covers and log_is_transcript are about (bytes, rel, imm) of an emit history; the tie "
+        "instantiates them with the REAL stream: each of the %d accepted `emit` lines runs x86::/a64::Assembler::_emit with a "
+        "StringLogger(kMachineCode) on instruction forms of the C01/C02 kind (menu x operand shapes + random ids under strict "
+        "validation), the harness returns the bytes the CodeHolder section buffer grew by, the model's log line is computed from "
+        "exactly those bytes and compared with the logger text, and monLogLine reads the column back and compares it byte for byte "
+        "with them (dots only over a zero placeholder of an instruction that refers to a label)" % accepted)
     res.coverage["emit_lines_with_imm_annotation_not_compared"] = skipped_annot
     res.coverage["traces_validated_against_impl"] = len(ops)
     ex = [i for i, o in enumerate(ops) if o.startswith(("op m.", "op am.", "inst ", "emit ")) and impl[i][:1] in ("=", "T")]
